@@ -295,6 +295,11 @@ func (cmd commandEprt) Execute(conn *Conn, param string) {
 		conn.writeMessage(522, "Network protocol not supported, use (1,2)")
 		return
 	}
+	if conn.dataConn != nil {
+		conn.dataConn.Close()
+		conn.dataConn = nil
+	}
+
 	socket, err := newActiveSocket(host, port, conn.sessionid)
 	if err != nil {
 		conn.writeMessage(425, "Data connection failed")
@@ -601,6 +606,11 @@ func (cmd commandPort) Execute(conn *Conn, param string) {
 	portTwo, _ := strconv.Atoi(nums[5])
 	port := (portOne * 256) + portTwo
 	host := nums[0] + "." + nums[1] + "." + nums[2] + "." + nums[3]
+	if conn.dataConn != nil {
+		conn.dataConn.Close()
+		conn.dataConn = nil
+	}
+
 	socket, err := newActiveSocket(host, port, conn.sessionid)
 	if err != nil {
 		conn.writeMessage(425, "Data connection failed")
